@@ -162,7 +162,13 @@ package fs
 // Invariant: g_rawStr + content(message) == g_expStr: no byte is dropped, added,
 // reordered or merged; at end of file (cat mode) the unterminated rest is flushed.
 
+// (C07) One owner per buffer: a raw line sent on rawLines belongs to the
+// consumer (which recycles it after framing); the reading side never hands a
+// buffer back to the pool, so a queued line cannot be reset or reused under
+// another source's label. Stated as a deny-list over these functions, their
+// closures and the same-package helpers they call.
 //@ func (*readFile).read
+//@   never-calls RecycleBytesBuffer, (*sync.Pool).Put
 //@   requires [rawLines] rawLines != nil && reader != nil
 //@   requires [max] config.Server.MaxLineLength >= 1
 //@   chaninv rawLines [raw-nonnil] elem != nil
@@ -174,6 +180,7 @@ package fs
 //@   ensures [complete-at-eof] implies(!cancelled() && isnil(result), g_rawStr == g_expStr)
 
 //@ func (*readFile).handleReadByte
+//@   never-calls RecycleBytesBuffer, (*sync.Pool).Put
 //@   requires [message] message != nil && rawLines != nil
 //@   requires [max] config.Server.MaxLineLength >= 1
 //@   requires [byte-appended] len(content(message)) >= 1 && hasSuffix(content(message), char(b)) && len(content(message)) <= config.Server.MaxLineLength && !contains(substr(content(message), 0, len(content(message)) - 1), "\n")
@@ -193,6 +200,7 @@ package fs
 //@   ensures [error-when-truncated] implies(result0, !isnil(result1))
 
 //@ func (*readFile).handleReadError
+//@   never-calls RecycleBytesBuffer, (*sync.Pool).Put
 //@   requires [message] message != nil && !isnil(err)
 //@   chaninv rawLines [raw-nonnil] elem != nil
 //@   assigns *rawLines, g_rawStr, *fd, fs
